@@ -6,6 +6,7 @@ import (
 
 	"verif/core"
 	"verif/engine"
+	"verif/concprops"
 	_ "verif/ctxprops"
 	_ "verif/docstore"
 	"verif/fsprops"
@@ -32,6 +33,8 @@ func main() {
 		code = core.WorkerMain(os.Args[2:])
 	case "replay":
 		code = core.ReplayMain(os.Args[2])
+	case "c40run":
+		code = concprops.ChildMain(os.Args[2])
 	case "killrun":
 		code = fsprops.KillRunMain(os.Args[2])
 	default:
